@@ -72,10 +72,10 @@ def extract_function(cname, ptext, body, cxx_name):
     row = {"cname": cname, "cparams": cparams, "this": "", "args": None, "call": "", "copyouts": [], "result": "", "unknown": []}
     for st in statements(body):
         # local definitions
-        m = re.match(r"^(?:const )?[\w:<>]+(?: const)? ?[\*&]? ?(\w+) = static_cast<\s*(.*?)\s*>\(\s*(.*)\s*\)$", st)
-        if m and "(" not in m.group(3).replace("->addr", ""):
+        m = re.match(r"^(?:const )?[\w:<>, ]+?(?: const)? ?[\*&]? ?(\w+) = static_cast<\s*(.*?)\s*>\s*\(\s*(.*)\s*\)$", st)
+        if m and "(" not in m.group(3):
             name, typ, src = m.group(1), m.group(2), m.group(3)
-            ms = re.match(r"^(\w+)->addr$", src)
+            ms = re.match(r"^(\w+)(?:->|\.)addr$", src)
             if ms:
                 locals_[name] = ("ShadowAddr", ms.group(1))
                 if name == "SH_this":
@@ -98,20 +98,24 @@ def extract_function(cname, ptext, body, cxx_name):
                 row["unknown"].append(st)
             continue
         # the call
-        m = re.match(r"^(?:(?:const )?[\w:<> ]+?[\*&]? ?(\w+) = |\*(\w+) = )?(?:(SH_this)->|(\w+)::)?(new )?([\w:]+)\((.*)\)$", st)
-        if m and (m.group(6) == cxx_name or (m.group(5) and row["args"] is None) or m.group(6).endswith("::" + cxx_name)) and row["args"] is None \
-                and not st.startswith(("strcpy", "ShroudStr", "return")):
+        m = re.match(r"^(?:(?:const )?[\w:<>, ]+?[\*&]? ?(\w+) = |\*(\w+) = )?(?:(SH_this)->)?(new )?([\w:]+?)(<[^()]*>)?\((.*)\)$", st)
+        if m and row["args"] is None and not st.startswith(("strcpy", "ShroudStr", "return", "static_cast", "std::mem", "memcpy")) \
+                and (m.group(4) or m.group(5) == cxx_name or m.group(5).endswith("::" + cxx_name)):
             args = split_top(m.group(7)) if m.group(7).strip() else []
             row["args"] = [classify_expr(a, locals_) for a in args]
-            row["call"] = ("method" if m.group(3) else ("static" if m.group(4) else ("new" if m.group(5) else "function")))
+            # a qualified callee is a namespace function or a static member: the node's own kind says which
+            row["call"] = ("method" if m.group(3) else ("new" if m.group(4) else "plain"))
             if m.group(1) or m.group(2):
                 row["result"] = row["result"] or ("Local:" + (m.group(1) or m.group(2)))
             continue
         m = re.match(r"^strcpy\((\w+), (\w+)\.c_str\(\)\)$", st) or re.match(r"^ShroudStrCopy\((\w+), \w+, (\w+)\.data\(\), \2\.size\(\)\)$", st)
         if m:
-            row["copyouts"].append((m.group(1), m.group(2)))
+            if m.group(2) in ("SHCXX_rv", "SHC_rv"):
+                row["result"] = (row["result"] + "|" if row["result"] else "") + "ResultGlue"      # the result delivered through an argument
+            else:
+                row["copyouts"].append((m.group(1), m.group(2)))
             continue
-        m = re.match(r"^return (\w+)$", st)
+        m = re.match(r"^return [\*&]?(\w+)$", st)
         if m:
             row["result"] = (row["result"] + "|" if row["result"] else "") + "Return:" + m.group(1)
             continue
@@ -146,6 +150,49 @@ def extract_dir(od, nodes):
         r = extract_function(n["cname"], ptext, body, n["cxx_name"])
         r["cxx_params"] = n["params"]
         r["kind"] = n["kind"]
+        if r["call"] == "plain":
+            r["call"] = "static" if n["kind"] == "static" else "function"
+        if n.get("splicer") or n.get("user_pattern"):
+            r["kind"] = "splicer"            # the body is user / generated splicer text (member getters and setters): not a call wrapper
         r["generated"] = n.get("generated")
         rows.append(r)
     return rows
+
+
+CONV = {"Direct": "Direct", "Deref": "Deref", "Cast": "Cast", "StringFrom": "StringFrom", "StringFromLen": "StringFrom", "StringEmpty": "StringEmpty",
+        "ShadowAddr": "ShadowAddr", "Deref+ShadowAddr": "DerefShadow"}
+
+
+def coq_s(x):
+    if any(ord(c) > 126 or ord(c) < 32 for c in x):
+        raise ValueError("non-ascii")
+    return '"' + x.replace('"', '""') + '"'
+
+
+def emit_coq(rows, path):
+    """rows (with a 'lib' label) -> GenFlows.v ; fail closed: a row that cannot be written becomes w_unknown = 99"""
+    items = []
+    for r in rows:
+        if r.get("missing"):
+            items.append('{| w_name := %s; w_kind := "missing"; w_call := ""; w_this := ""; w_params := []; w_args := []; w_copyouts := []; w_unknown := 99 |}'
+                         % coq_s(r.get("lib", "") + ":" + (r.get("cname") or "?")))
+            continue
+        try:
+            ps = []
+            for (n, k) in r["cxx_params"]:
+                g, p, i = (k.split("|") + ["", "", ""])[:3]
+                if "|fptr" in k:
+                    g = "fptr"
+                ps.append("(%s, {| k_group := %s; k_ptrs := %s; k_intent := %s |})" % (coq_s(n), coq_s(g), coq_s(p), coq_s(i)))
+            args = ["(%s, %s)" % (CONV.get(c, "UnknownConv"), coq_s(root)) for (c, root) in (r["args"] if r["args"] is not None else [("?", "?")])]
+            unk = len(r["unknown"]) + (1 if r["args"] is None else 0)
+            items.append("{| w_name := %s; w_kind := %s; w_call := %s; w_this := %s; w_params := [%s]; w_args := [%s]; w_copyouts := [%s]; w_unknown := %d |}" % (
+                coq_s(r.get("lib", "") + ":" + r["cname"]), coq_s(r["kind"]), coq_s(r["call"]), coq_s(r["this"]), "; ".join(ps), "; ".join(args),
+                "; ".join(coq_s(c) for c, _ in r["copyouts"]), unk))
+        except Exception:
+            items.append('{| w_name := "unwritable"; w_kind := "?"; w_call := ""; w_this := ""; w_params := []; w_args := []; w_copyouts := []; w_unknown := 99 |}')
+    with open(path, "w") as f:
+        f.write("(* generated on this run: argument flow of every plain C wrapper found in the generated sources *)\n")
+        f.write("From Coq Require Import List String.\nFrom Shroud Require Import Model.CallEq.\nImport ListNotations.\nOpen Scope string_scope.\n")
+        f.write("Definition flows : list wrapper :=\n  [" + ";\n   ".join(items) + "].\n")
+    return len(items)
